@@ -5,7 +5,8 @@
    allocates it through Heap::put / put_cell. *)
 From Coq Require Import String.
 From MW Require Import Model.Base Model.Datum Model.Lex Model.Parse Model.VmTypes Model.Heap Model.Gc
-  Model.SymbolB Proofs.GcProofs Proofs.SymtabProofs Proofs.SymbolProofs.
+  Model.SymbolB Proofs.GcProofs Proofs.SymtabProofs Proofs.SymbolProofs
+  Model.VmBase Model.ListVec Model.Vm Model.Builtins Proofs.SymbolRoutes.
 Open Scope N_scope.
 
 (* symtab_inv is [hi_symtab] of [heap_inv]: symtab n = Some a iff cell a is allocated and
@@ -125,3 +126,101 @@ Example C18_example_roundtrip :
   symbol_to_string (string_to_symbol [97; 32; 92; 955]) = Ok [97; 32; 92; 955]
   /\ plain_identifier [108; 105; 115; 116; 45; 62; 118] = true.
 Proof. vm_compute. split; reflexivity. Qed.
+
+(* ---- ONE statement across the two routes that make a symbol, for all names (work package
+   c19c, Proofs/SymbolRoutes.v).
+     reader route:  a literal / quoted symbol — the reader makes Cell::Symbol(spelling y)
+                    ([reader_symbol_name]), stored with Heap::put_cell;
+     builtin route: (string->symbol str), str holding t — the builtin returns
+                    VCell::Symbol(string_to_symbol t) by value ([C18_builtin_route_value]) and the
+                    CALL wrapper stores it with Heap::maybe_put.
+   Whatever the order: both results are pointers to allocated symbol cells of the final heap,
+   eq? (Vm::eqv) on them answers exactly "the same cell", and they ARE the same cell iff the
+   encoded name of t is the spelling y. *)
+Theorem C18_same_name_same_symbol : forall h st0 y t,
+  heap_inv h ->
+  (forall vr h1 st1 vb h2,
+     put_cell h st0 (CSym (reader_symbol_name y)) = Ok (vr, h1, st1) ->
+     heap_maybe_put h1 (VSym (string_to_symbol t)) = (vb, h2) ->
+     exists p q, vr = VPtr p /\ vb = VPtr q /\ heap_inv h2 /\ allocated h2 p /\ allocated h2 q /\
+       cell_at h2 p = VSym y /\ cell_at h2 q = VSym (string_to_symbol t) /\
+       (p = q <-> string_to_symbol t = y) /\
+       (forall s, hp s = h2 -> eqv vr vb s = ROk (p =? q) s /\ eqv vb vr s = ROk (p =? q) s)) /\
+  (forall vb h1 vr h2 st2,
+     heap_maybe_put h (VSym (string_to_symbol t)) = (vb, h1) ->
+     put_cell h1 st0 (CSym (reader_symbol_name y)) = Ok (vr, h2, st2) ->
+     exists p q, vr = VPtr p /\ vb = VPtr q /\ heap_inv h2 /\ allocated h2 p /\ allocated h2 q /\
+       cell_at h2 p = VSym y /\ cell_at h2 q = VSym (string_to_symbol t) /\
+       (p = q <-> string_to_symbol t = y) /\
+       (forall s, hp s = h2 -> eqv vr vb s = ROk (p =? q) s /\ eqv vb vr s = ROk (p =? q) s)).
+Proof. exact same_name_same_symbol. Qed.
+Print Assumptions C18_same_name_same_symbol.
+
+(* the core: two puts of symbols in a row *)
+Theorem C18_two_puts : forall h n1 n2 v1 h1 v2 h2,
+  heap_inv h -> heap_put h (VSym n1) = (v1, h1) -> heap_put h1 (VSym n2) = (v2, h2) ->
+  exists p q, v1 = VPtr p /\ v2 = VPtr q /\ heap_inv h2 /\ allocated h2 p /\ allocated h2 q /\
+    cell_at h2 p = VSym n1 /\ cell_at h2 q = VSym n2 /\ (p = q <-> n1 = n2).
+Proof. exact two_puts. Qed.
+Print Assumptions C18_two_puts.
+
+(* "string->symbol of a name yields a symbol eq? to the symbol read from the same spelling":
+   for every plain identifier, in both orders *)
+Theorem C18_same_spelling_same_symbol : forall h st0 y,
+  heap_inv h -> plain_identifier y = true ->
+  (forall vr h1 st1 vb h2,
+     put_cell h st0 (CSym (reader_symbol_name y)) = Ok (vr, h1, st1) ->
+     heap_maybe_put h1 (VSym (string_to_symbol y)) = (vb, h2) ->
+     vr = vb /\ exists p, vr = VPtr p /\ allocated h2 p /\ cell_at h2 p = VSym y /\
+       forall s, hp s = h2 -> eqv vr vb s = ROk true s) /\
+  (forall vb h1 vr h2 st2,
+     heap_maybe_put h (VSym (string_to_symbol y)) = (vb, h1) ->
+     put_cell h1 st0 (CSym (reader_symbol_name y)) = Ok (vr, h2, st2) ->
+     vr = vb /\ exists p, vr = VPtr p /\ allocated h2 p /\ cell_at h2 p = VSym y /\
+       forall s, hp s = h2 -> eqv vr vb s = ROk true s).
+Proof. exact same_spelling_same_symbol. Qed.
+Print Assumptions C18_same_spelling_same_symbol.
+
+(* ... and NOT for every spelling: the reader symbol + and (string->symbol "+") are two cells,
+   eq? answers #f (open finding non-initial-first-char, cf. C18_refuted_first_char) *)
+Theorem C18_same_spelling_refuted_first_char :
+  exists y, known_first_char_not_initial y = true /\
+    forall h st0 vr h1 st1 vb h2, heap_inv h ->
+      put_cell h st0 (CSym (reader_symbol_name y)) = Ok (vr, h1, st1) ->
+      heap_maybe_put h1 (VSym (string_to_symbol y)) = (vb, h2) ->
+      vr <> vb /\ forall s, hp s = h2 -> eqv vr vb s = ROk false s.
+Proof. exact same_spelling_refuted_first_char. Qed.
+Print Assumptions C18_same_spelling_refuted_first_char.
+
+(* the builtin route is string_to_symbol: Model/Builtins.b_string_symbol answers the symbol
+   BY VALUE with the encoded name of the string's contents and leaves the heap alone *)
+Theorem C18_builtin_route_value : forall s r s',
+  b_string_symbol s = ROk r s' ->
+  hp s' = hp s /\ exists sid t, tget (strs (st s')) sid = Some t /\ r = VSym (string_to_symbol t).
+Proof. exact b_string_symbol_value. Qed.
+Print Assumptions C18_builtin_route_value.
+
+(* non-vacuity: the two routes on a fresh heap, and through the whole VM model *)
+Example C18_routes_example :
+  let h0 := heap_new 8 in
+  match put_cell h0 store_empty (CSym (reader_symbol_name [102;111;111])) with
+  | Ok (vr, h1, _) =>
+      let '(vb, h2) := heap_maybe_put h1 (VSym (string_to_symbol [102;111;111])) in
+      let '(vp, h3) := heap_maybe_put h2 (VSym (string_to_symbol [43])) in
+      match put_cell h3 store_empty (CSym (reader_symbol_name [43])) with
+      | Ok (vq, _, _) => vr = VPtr 0 /\ vb = VPtr 0 /\ vp = VPtr 1 /\ vq = VPtr 2
+      | _ => False
+      end
+  | _ => False
+  end.
+Proof. vm_compute. repeat split. Qed.
+Example C18_routes_on_the_vm :
+  match boot_with [] with
+  | Some s0 =>
+      fst (eval_text_all 10
+             (S_ "(eq? 'foo (string->symbol ""foo"")) (eq? (string->symbol ""a-b"") 'a-b) (eq? '+ (string->symbol ""+""))"%string)
+             s0 [])
+      = [FOk (CBool true); FOk (CBool true); FOk (CBool false)]
+  | None => False
+  end.
+Proof. vm_compute. reflexivity. Qed.
